@@ -596,6 +596,9 @@ enum Op {
     UnitOverMean,
     MeanOfUnit,
     UnitOverMeanFromIter,
+    /// one long-lived Mean grown through every entry point in turn: record, try_extend,
+    /// record_value, add(&other), try_extend again
+    UnitOverMeanGrownStepwise,
     UnitOverNone,
     NoneOfUnit,
     UnitOverEmptyDistribution,
@@ -658,6 +661,19 @@ where
         Op::NoneOfUnit => record(&Option::<WithUnit<Tagged<A>, B>>::None),
         Op::UnitOverEmptyDistribution => record(&Distribution::<Tagged<A>>::from_iter(std::iter::empty()).with_unit::<B>()),
         Op::UnitOverEmptyMean => record(&Mean::<A>::default().with_unit::<B>()),
+        Op::UnitOverMeanGrownStepwise => {
+            let t = Tagged::<A>::new(x);
+            let mut m = Mean::<A>::default();
+            m.record(1.0);
+            let r = m
+                .try_extend([&t])
+                .and_then(|()| m.record_value(&t))
+                .map(|()| {
+                    m.add(&Mean::<A>::from_iter([2.0, 3.0]));
+                })
+                .and_then(|()| m.try_extend([&t, &t]));
+            mean_calls(r.map(|()| m.with_unit::<B>()))
+        }
         Op::StringPlain => record(&StrMetric::<A>(PhantomData).with_unit::<B>()),
         Op::StringOption => record(&Some(StrMetric::<A>(PhantomData)).with_unit::<B>()),
         Op::StringDistribution => record(&Distribution::<StrMetric<A>>::from_iter([StrMetric(PhantomData)]).with_unit::<B>()),
@@ -759,6 +775,12 @@ fn pair_run(st: &mut St, an: &'static str, bn: &'static str, f: PairFns) {
         } else {
             // the Mean adds the converted number to 0.0: Repeated, even when the ratio is 1
             check_metric(st, "mean-of-unit", &from, &to, ratio, false, &as_repeated, &calls, false, 4.0);
+        }
+        {
+            // the same mean grown step by step: 1.0, x, x, (2.0 + 3.0), x, x
+            let total = ((((0.0 + 1.0) + val) + val) + (0.0 + 2.0 + 3.0)) + val + val;
+            let calls = emit(Op::UnitOverMeanGrownStepwise, &one, none);
+            check_metric(st, "unit-over-mean-grown-stepwise", &from, &to, ratio, true, &[Observation::Repeated { total, occurrences: 1 + occ + occ + 2 + occ + occ }], &calls, false, 8.0);
         }
         if let Observation::Repeated { total, occurrences } = x {
             if (1..=8).contains(&occurrences) {
